@@ -1,4 +1,178 @@
-From Coq Require Import ZArith QArith List Bool Lia.
-Require Import SkV.Lib.Base SkV.C09.Model SkV.C10.Model SkV.C10.Proofs.
-Theorem C10_stub : True. Proof. exact stub. Qed.
-Print Assumptions C10_stub.
+(* C10 property theorems: statements closed by `exact`; Print Assumptions after the sections.
+   They hold for ALL forecasting kernels (lfit / lpred abstract), series and histories. *)
+From Coq Require Import ZArith QArith List Bool.
+Require Import SkV.Lib.Base SkV.C09.Model SkV.C09.Cases SkV.C09.Proofs SkV.C10.Model SkV.C10.Cases
+        SkV.C10.Proofs.
+Require SkV.C01.Model.
+Import ListNotations.
+Open Scope Z_scope.
+
+Section Statements.
+  Variable leaf : Type.
+  Variable lpar : Type.
+  Variable lfit : leaf -> series -> lpar.
+  Variable lpred : leaf -> lpar -> series -> Z -> Z -> Q.
+  Variable lsetsfh : leaf -> bool.
+  Variable ldefwl : leaf -> lpar -> Z.
+
+  Local Notation fstateT := (fstate lpar).
+  Local Notation set_fh' := (set_fh lpar).
+  Local Notation set_cut' := (set_cut lpar).
+  Local Notation fit_state' := (fit_state leaf lpar lfit).
+  Local Notation do_update' := (do_update leaf lpar lfit).
+  Local Notation forecast' := (forecast leaf lpar lpred).
+  Local Notation do_predict' := (do_predict leaf lpar lpred).
+  Local Notation do_ups' := (do_ups leaf lpar lfit lpred).
+  Local Notation do_update_predict' := (do_update_predict leaf lpar lfit lpred lsetsfh ldefwl).
+  Local Notation step' := (step leaf lpar lfit lpred lsetsfh ldefwl).
+  Local Notation after' := (after leaf lpar lfit lpred lsetsfh ldefwl).
+  Local Notation run' := (run leaf lpar lfit lpred lsetsfh ldefwl).
+  Local Notation op_batches' := (op_batches leaf lpar lsetsfh ldefwl).
+  Local Notation singles' := (singles leaf lpar lfit lpred lsetsfh).
+
+  (* After every call that does not raise, the forecaster remembers what it remembered before
+     (for fit: the new training series) merged with every batch the call handed over, in order. *)
+  Theorem C10_memory_after_every_call : forall l (s : fstateT) o,
+    snd (step' l s o) <> BErr ->
+    fmem lpar (fst (step' l s o)) = merge_all (op_batches' l s o) (op_base lpar s o).
+  Proof. exact (step_memory leaf lpar lfit lpred lsetsfh ldefwl). Qed.
+
+  (* For every list of updates, whatever the flags: the memory is the merge of all batches. *)
+  Theorem C10_memory_after_updates : forall l (ups : list (series * bool)) (s : fstateT),
+    fmem lpar (after' l s (map (fun u => OUpdate (fst u) (snd u)) ups)) =
+    merge_all (map fst ups) (fmem lpar s).
+  Proof. exact (updates_memory leaf lpar lfit lpred lsetsfh ldefwl). Qed.
+
+  (* A forecaster that refits on update: update(y) leaves exactly the state of a fresh forecaster
+     fitted on the union (once a horizon is known; see Refuted.v / finding F-C10-1 otherwise). *)
+  Theorem C10_refit_on_update_equals_fresh_fit : forall l (s : fstateT) y h,
+    ffh lpar s = Some h ->
+    do_update' l s y true = (fit_state' l (cfirst y (fmem lpar s)) (Some h), true).
+  Proof. exact (refit_on_update_equals_fresh_fit leaf lpar lfit). Qed.
+
+  (* fit(y1); update(y2); predict  ==  fit(y1 followed by y2); predict *)
+  Theorem C10_fit_update_equals_fit_on_union : forall l y1 y2 h,
+    last (run' l y1 (Some h) [OUpdate y2 true; OPredict None]) (BErr, 0, [], None) =
+    last (run' l (cfirst y2 y1) (Some h) [OPredict None]) (BErr, 0, [], None).
+  Proof. exact (fit_update_equals_fit_on_union leaf lpar lfit lpred lsetsfh ldefwl). Qed.
+
+  (* With parameter updating disabled the fitted parameters stay those of the last fit while the
+     cutoff moves to the end of the new data and forecasts are made from there. *)
+  Theorem C10_no_param_update_keeps_params_moves_cutoff : forall l (s : fstateT) y h,
+    y <> [] ->
+    let s' := fst (do_update' l s y false) in
+    snd (do_update' l s y false) = true /\
+    fpar lpar s' = fpar lpar s /\ ffh lpar s' = ffh lpar s /\
+    fmem lpar s' = cfirst y (fmem lpar s) /\ fcut lpar s' = last_time y /\
+    forecast' l s' h =
+      map (fun k => (last_time y + k, lpred l (fpar lpar s) (cfirst y (fmem lpar s)) (last_time y) k)) h.
+  Proof. exact (no_param_update_keeps_params_moves_cutoff leaf lpar lfit lpred). Qed.
+
+  (* update_predict returns exactly the forecasts of the corresponding sequence of single updates
+     and predicts (one per window of the splitter), labelled by their cutoffs ... *)
+  Theorem C10_update_predict_is_loop_of_singles : forall l (s : fstateT) y c up s' out ws,
+    do_update_predict' l s y (Some c) up = (s', BPreds out) ->
+    cv_windows c (Z.of_nat (length y)) = Ok ws ->
+    out = singles' l (cv_fh c) up (set_cut' s (zfirst (times y) - 1)) (map (take y) ws).
+  Proof. exact (update_predict_is_loop_of_singles leaf lpar lfit lpred lsetsfh ldefwl). Qed.
+
+  (* ... where each single step is what the public update_predict_single(window, fh) does *)
+  Theorem C10_single_step_is_update_predict_single : forall l (s : fstateT) w h up,
+    (up = true -> ffh lpar s <> None) ->
+    let s1 := fst (do_update' l s w up) in
+    let s2 := if lsetsfh l then set_fh' s1 (Some h) else s1 in
+    let r := do_ups' l s w (Some h) up in
+    snd r = BPred (forecast' l s2 h) /\ fcut lpar (fst r) = fcut lpar s2 /\
+    fmem lpar (fst r) = fmem lpar s2 /\ fpar lpar (fst r) = fpar lpar s2.
+  Proof. exact (single_step_is_update_predict_single leaf lpar lfit lpred lsetsfh). Qed.
+
+  (* ... and it leaves the forecaster's own cutoff where it was, also when it raises. *)
+  Theorem C10_update_predict_restores_cutoff : forall l (s : fstateT) y cv up,
+    fcut lpar (fst (do_update_predict' l s y cv up)) = fcut lpar s.
+  Proof. exact (update_predict_restores_cutoff leaf lpar lfit lpred lsetsfh ldefwl). Qed.
+
+  Theorem C10_predict_is_read_only : forall l (s : fstateT) fh,
+    let s' := fst (do_predict' l s fh) in
+    fcut lpar s' = fcut lpar s /\ fmem lpar s' = fmem lpar s /\ fpar lpar s' = fpar lpar s.
+  Proof. exact (predict_is_read_only leaf lpar lpred). Qed.
+End Statements.
+
+(* "union, later values win": what merge_all means, pointwise *)
+Theorem C10_memory_is_union_newer_wins : forall bs m,
+  (forall t, lookup t (merge_all bs m) = latest t bs (lookup t m)) /\
+  (forall x, In x (times (merge_all bs m)) <->
+             In x (times m) \/ exists b, In b bs /\ In x (times b)) /\
+  (sorted_lt (times m) -> sorted_lt (times (merge_all bs m))).
+Proof.
+  exact (fun bs m => conj (merge_all_lookup bs m) (conj (merge_all_times bs m)
+                                                       (merge_all_sorted bs m))).
+Qed.
+
+(* time-ordered, non-overlapping batches: the union is the concatenation "y1 followed by y2" *)
+Theorem C10_union_of_consecutive_batches_is_append : forall y1 y2,
+  sorted_lt (times y2) -> (forall a b, In a (times y1) -> In b (times y2) -> a < b) ->
+  cfirst y2 y1 = y1 ++ y2.
+Proof. exact union_of_consecutive_batches_is_append. Qed.
+
+(* composites (model of C09): own memory = union of all batches, own cutoff = end of the latest
+   non-empty batch, for ensemble, pipeline, multiplexer and stacking, all leaf semantics *)
+Theorem C10_composite_own_memory_and_cutoff :
+  forall (leaf lpar : Type) lfit lpred (tr tpar : Type) tfit tupd tapp tinv tskip thasupd
+         (reg rpar : Type) rfit rpred (f : fc leaf tr reg) y fh ups,
+    match f with
+    | Mux _ _ _ sel ms => nth_error ms sel <> None
+    | _ => True
+    end ->
+    match f with
+    | Leaf _ _ _ _ _ => True
+    | _ => exists b,
+        own_base leaf lpar tr tpar reg rpar
+          (state_after leaf lpar lfit lpred tr tpar tfit tupd tapp tinv tskip thasupd reg rpar rfit
+                       rpred f y fh ups) = Some b /\
+        mem b = merge_all (map fst ups) y /\
+        (forall r yl up, ups = r ++ [(yl, up)] -> yl <> [] -> cut b = last_time yl) /\
+        (ups = [] -> cut b = last_time y)
+    end.
+Proof.
+  intros leaf lpar lfit lpred tr tpar tfit tupd tapp tinv tskip thasupd reg rpar rfit rpred f y fh
+         ups H.
+  apply (composite_own_memory_and_cutoff leaf lpar lfit lpred tr tpar tfit tupd tapp tinv tskip
+           thasupd reg rpar rfit rpred f y fh ups).
+  destruct f; try exact I. exact H.
+Qed.
+
+Print Assumptions C10_memory_after_every_call.
+Print Assumptions C10_memory_after_updates.
+Print Assumptions C10_refit_on_update_equals_fresh_fit.
+Print Assumptions C10_fit_update_equals_fit_on_union.
+Print Assumptions C10_no_param_update_keeps_params_moves_cutoff.
+Print Assumptions C10_update_predict_is_loop_of_singles.
+Print Assumptions C10_single_step_is_update_predict_single.
+Print Assumptions C10_update_predict_restores_cutoff.
+Print Assumptions C10_predict_is_read_only.
+Print Assumptions C10_memory_is_union_newer_wins.
+Print Assumptions C10_union_of_consecutive_batches_is_append.
+Print Assumptions C10_composite_own_memory_and_cutoff.
+
+(* Non-vacuity: a history with overlapping data, a refit, a no-parameter update and an
+   update_predict over a sliding splitter, in the semantics of the leaf double; the snapshots
+   (returned forecasts, cutoff, remembered data, stored horizon) are those of the real object. *)
+Definition ex_ops : list op :=
+  [OUpdate [(2, 5 # 1); (3, 8 # 1)] true;
+   OPredict None;
+   OUpdate [(4, 1 # 1)] false;
+   OUpdPred [(5, 2 # 1); (6, 3 # 1); (7, 4 # 1); (8, 6 # 1)]
+            (Some {| cv_kind := SkV.C01.Model.Sliding; cv_fh := [1]; cv_wl := 2; cv_step := 1;
+                     cv_sww := true |}) false].
+Example C10_nonvacuous :
+  list_close snap_close
+    (c_run (LRec (1 # 1) (1 # 1)) [(0, 1 # 1); (1, 2 # 1); (2, 4 # 1)] (Some [1; 2]) ex_ops)
+    [(BOk, 2, [(0, 1 # 1); (1, 2 # 1); (2, 4 # 1)], Some [1; 2]);
+     (BOk, 3, [(0, 1 # 1); (1, 2 # 1); (2, 5 # 1); (3, 8 # 1)], Some [1; 2]);
+     (BPred [(4, 25 # 1); (5, 26 # 1)], 3, [(0, 1 # 1); (1, 2 # 1); (2, 5 # 1); (3, 8 # 1)],
+      Some [1; 2]);
+     (BOk, 4, [(0, 1 # 1); (1, 2 # 1); (2, 5 # 1); (3, 8 # 1); (4, 1 # 1)], Some [1; 2]);
+     (BPreds [(6, [(7, 20 # 1)]); (7, [(8, 21 # 1)])], 4,
+      [(0, 1 # 1); (1, 2 # 1); (2, 5 # 1); (3, 8 # 1); (4, 1 # 1); (5, 2 # 1); (6, 3 # 1);
+       (7, 4 # 1)], Some [1])] = true.
+Proof. vm_compute. reflexivity. Qed.
